@@ -17,6 +17,7 @@ Section Sem.
   | HAny v : ht v TUnknown
   | HStr s : ht (JStr s) TStr
   | HLit s ls : In s ls -> ht (JStr s) (TLit false ls)
+  | HLitO s ls : ht (JStr s) (TLit true ls)      (* an overflowed literal is rendered as str *)
   | HPs s p : accepts p s = true -> ht (JStr s) (TPseudo p)
   | HOptN t : ht JNull (TOpt t)
   | HOptS v t : ht v t -> ht v (TOpt t)
@@ -46,7 +47,7 @@ Section Sem.
     | TBool => match v with JBool _ => true | _ => false end
     | TNull => match v with JNull => true | _ => false end
     | TStr => match v with JStr _ => true | _ => false end
-    | TLit o ls => match v with JStr s => negb o && existsb (str_eqb s) ls | _ => false end
+    | TLit o ls => match v with JStr s => o || existsb (str_eqb s) ls | _ => false end
     | TPseudo p => match v with JStr s => accepts p s | _ => false end
     | TOpt x => match v with JNull => true | _ => htb fuel v x end
     | TList x => match v with JArr l => forallb (fun e => htb fuel e x) l | _ => false end
